@@ -47,6 +47,7 @@ KERNELS = {
     "C29": ["k_math_bounding", "k_math_percentage", "k_math_clamp", "k_css_clamp", "k_find_extreme"],
     "C28": ["k_index_of", "k_set_nth", "k_append_join", "k_list_separator", "k_list_index", "k_nth", "k_get_list"],
     "C31": ["k_deg_mod"],
+    "C33": ["k_rgba_hex_text"],
     "C32": ["k_deg_mod", "k_lighten_darken", "k_fade", "k_complement_grayscale"],
 }
 # for C01 only the panic obligations of the kernels count
@@ -265,6 +266,48 @@ def lift_math1(model, fn):
     return {"scss": src, "want": "%s%s" % (float(want), "%" if fn == "percentage" else "px"), "got": vals, "reproduced": bad}
 
 
+def lift_hexcolor(model):
+    """print rgb(r, g, b) for the model's bytes in both styles and as a hex literal source: the text must denote (r, g, b)"""
+    vals = {}
+    for k, v in (model or {}).items():
+        for n in ("red", "green", "blue"):
+            if n in k:
+                vals[n] = smt.bv_from_model(v, False, 8)
+    if len(vals) != 3:
+        return None
+    r, g, b = vals["red"], vals["green"], vals["blue"]
+
+    def denotes(text):
+        t = text.strip().lower()
+        m = re.fullmatch(r"#([0-9a-f]{6})", t)
+        if m:
+            return tuple(int(m.group(1)[i:i + 2], 16) for i in (0, 2, 4))
+        m = re.fullmatch(r"#([0-9a-f]{3})", t)
+        if m:
+            return tuple(int(ch * 2, 16) for ch in m.group(1))
+        m = re.fullmatch(r"rgb\((\d+),\s*(\d+),\s*(\d+)\)", t)
+        if m:
+            return tuple(int(x) for x in m.groups())
+        return None  # a colour name: outside this lifter
+
+    bad = []
+    srcs = ["rgb(%d, %d, %d)" % (r, g, b), "#%02x%02x%02x" % (r, g, b)]
+    if r % 17 == 0 and g % 17 == 0 and b % 17 == 0:
+        srcs.append("#%x%x%x" % (r // 17, g // 17, b // 17))
+    got = []
+    for src in srcs:
+        for comp in (False, True):
+            for prof in ("dev", "release"):
+                o = native.run_scss("a{b: %s}" % src, prof, comp)
+                m = re.search(r"b:\s*([^;}]*)", o["message"]) if o["outcome"] == "ok" else None
+                txt = m.group(1) if m else "<%s>" % o["outcome"]
+                got.append(txt)
+                d = denotes(txt)
+                if d is not None and d != (r, g, b):
+                    bad.append({"scss": src, "compressed": comp, "got": txt})
+    return {"scss": srcs[0], "want": "text denoting (%d, %d, %d)" % (r, g, b), "got": got[:6], "disagreements": bad, "reproduced": bool(bad)}
+
+
 def lift_random(model):
     lim = _val(model, "limit")
     if lim is None or lim <= 0:
@@ -403,6 +446,9 @@ STRUCTURAL_PROBES = {
                      ("math.clamp(5px, 2px, 3px)", "5px"), ("math.clamp(1in, 1px, 2in)", "1in"), ("math.clamp(0, 0.5, 1)", "0.5")],
     "k_css_clamp": [("clamp(1px, 5px, 3px)", "3px"), ("clamp(1px, 0px, 3px)", "1px"), ("clamp(1px, 2px, 3px)", "2px"), ("clamp(3px, 2px, 1px)", "3px"),
                     ("clamp(3, 0, 1)", "3"), ("clamp(1in, 50px, 1cm)", "1in"), ("clamp(1px, 2em, 3px)", "clamp(1px, 2em, 3px)")],
+    "k_rgba_hex_text": [("#abc", "#abc"), ("#aabbcc", "#aabbcc"), ("rgb(18, 52, 86)", "rgb(18, 52, 86)"), ("change-color(#abc, $red: 18)", "#12bbcc"), ("[compressed]a{b: change-color(#aabbc0, $blue: 204)}", "#abc"),
+                        ("[compressed]a{b: rgb(18, 52, 86)}", "#123456"), ("[compressed]a{b: #010203}", "#010203"), ("rgb(1, 2, 3)", "rgb(1, 2, 3)"), ("invert(#abc)", "#554433"),
+                        ("[compressed]a{b: rgb(255, 0, 0)}", "red")],
     "k_find_extreme": [("math.max(1, 3, 2)", "3"), ("math.min(1, 3, 2, 0.5)", "0.5"), ("math.max(1px, 1in)", "1in"), ("math.min(1px, 1in)", "1px"),
                        ("math.max(3, 1, 2)", "3"), ("math.min(2, 3, 1)", "1"), ("max(1px, 1em)", "max(1px, 1em)"), ("math.max(2, 2.5, 2.25)", "2.5"),
                        ("math.min(1s, 500ms)", "500ms")],
@@ -621,6 +667,8 @@ def lift(ob):
             return lift_deg_mod(model)
         if kind and kind.startswith("math1:"):
             return lift_math1(model, kind.split(":", 1)[1])
+        if kind == "hexcolor":
+            return lift_hexcolor(model)
         if kind == "index-map":
             return lift_index_map(model)
     except Exception as e:  # a broken lifter must not turn into a verdict
